@@ -86,7 +86,14 @@ class NDNApp:
                 self.logger.warning('Unable to decode received packet')
                 return
             data = fragment
-            typ, _ = parse_tl_num(data)
+            if data is None or len(data) == 0:
+                # An LpPacket without a payload (IDLE packet): nothing to process
+                return
+            try:
+                typ, _ = parse_tl_num(data)
+            except (IndexError, struct.error):
+                self.logger.warning('Unable to decode the fragment of LpPacket')
+                return
         else:
             nack_reason = None
 
